@@ -28,6 +28,10 @@ fn main() {
     // is the shim really loaded?
     let loaded = unsafe { libc_dlsym_present() };
     println!("shim_loaded: {loaded}");
+    // address-space probe (line is excluded from the seed comparison by the parent)
+    let stack = 0u8;
+    let heap = Box::new(0u8);
+    println!("addr: stack={:p} heap={:p} text={:p}", &stack, &*heap, order as fn() -> String);
 }
 
 unsafe extern "C" {
